@@ -527,5 +527,15 @@ func wsFramesFamily(seed uint64, tier string, args []string) {
 
 func init() {
 	families["ws-frames"] = wsFramesFamily
-	families["ws-worker"] = func(seed uint64, tier string, args []string) { wsWorker(args[0]) }
+	families["ws-worker"] = func(seed uint64, tier string, args []string) {
+		if args[0] == "storm" {
+			var c, p, g int
+			fmt.Sscan(args[1], &c)
+			fmt.Sscan(args[2], &p)
+			fmt.Sscan(args[3], &g)
+			stormWorker(c, p, g, args[4])
+			return
+		}
+		wsWorker(args[0])
+	}
 }
